@@ -78,7 +78,7 @@ package xlsx
 // ws = the unmarshalled worksheet (abstract input of the placement).  colOf(cell) = column parsed from the cell reference.
 //@ func (*Reader) parseWorksheet results (res, err)
 //@   property C18, C17, C02
-//@   flags nosafety, readonly
+//@   flags readonly
 // the grid is sized from cell references in the file: both allocations stay within the sheet limits, and the dense
 // grid as a whole within the cell budget
 //@   callsite make(k) requires grid_within_the_sheet_limits: k <= maxSheetRows && maxRow <= maxSheetRows && maxCol + 1 <= maxSheetCols && maxRow * (maxCol + 1) <= maxSheetCells
@@ -137,7 +137,6 @@ package xlsx
 // positional file-name fallback, whenever the workbook declares them)
 //@ func (*Reader) parseRelationships results (err)
 //@   property C18
-//@   flags nosafety
 //@   ensures all_recorded: !err && !(r.rels == old(r.rels) && r.sheetRels == old(r.sheetRels)) ==> forall k int :: {r.rels.Relationship[k]} 0 <= k && k < len(r.rels.Relationship) ==> has(r.sheetRels, r.rels.Relationship[k].ID)
 //@   loop 0:
 //@     invariant r.rels == entry(r.rels) && forall k int :: {r.rels.Relationship[k]} 0 <= k && k < $i ==> has(r.sheetRels, r.rels.Relationship[k].ID)
@@ -167,7 +166,6 @@ package xlsx
 // order); cells refer to entries by index, so the table must be index-stable
 //@ func (*Reader) parseSharedStrings results (err)
 //@   property C17
-//@   flags nosafety
 //@   loop 0:
 //@     invariant len(r.sharedStrings) == len(sst.SI)
 //@     step plain_item: len(si.T) > 0 ==> sameseq(r.sharedStrings[i], si.T)
@@ -229,7 +227,6 @@ package xlsx
 // cell at (row, col).  `cells` counts the cell terminators written.
 //@ func (*Reader) MarkdownWithOptions results (md, err)
 //@   property C15, C17
-//@   flags nosafety
 //@   requires forall k int :: {r.sheets[k]} 0 <= k && k < len(r.sheets) ==> !isnil(r.sheets[k]) && r.sheets[k].MaxCol >= 0 - 1
 //@   count cells: WriteString(s) when s == " |" || s == "---|"
 //@   callsite escapeMarkdown#1(s) requires header_cell_in_place: s == sheet.Rows[minRow][col].Value
@@ -257,7 +254,6 @@ package xlsx
 // (the 6th WriteString call of the function), `values` the cell-value writes (the 7th).
 //@ func (*Reader) TextWithOptions results (txt, err)
 //@   property C17
-//@   flags nosafety
 //@   count delims: WriteString(s) when $ord == 6
 //@   callsite WriteString#7(s) requires value_of_the_cell_in_place: s == sheet.Rows[rowIdx][colIdx].Value
 //@   loop 2:
@@ -294,6 +290,5 @@ package xlsx
 // every value stays in the field of its column ----
 //@ func (ParsedTable) ToText results (res)
 //@   property C17
-//@   flags nosafety
 //@   callsite WriteString#1(s) requires header_line_is_the_joined_fields: s == strings.Join(t.Headers, "\t")
 //@   callsite WriteString#3(s) requires row_line_is_the_joined_fields: s == strings.Join(row, "\t")
